@@ -1,9 +1,15 @@
 #!/bin/bash
-# MANIFEST.setup_cmd: full .vo build of the Coq development (never -vos/-vok), extraction, driver build. Offline.
-set -e
+# MANIFEST.setup_cmd: regenerate the translator output from /repo, full .vo build of the Coq development
+# (never -vos/-vok), extraction, driver build. Offline.
 export OCAMLRUNPARAM=s=4M PYTHONDONTWRITEBYTECODE=1
 cd "$(dirname "$0")"
-/venv/bin/python -c "import sys; sys.path.insert(0,'harness'); import framework; framework.ensure_makefile()"
-timeout 10000 make -C coq -j16 > coq/setup_make.log 2>&1 || { tail -30 coq/setup_make.log; echo "setup: coq build failed"; exit 1; }
-./build_models.sh
+repo="${VERIF_REPO:-/repo}"
+for t in translator/guards.py translator/codecs.py; do
+  [ -f $t ] && { /venv/bin/python $t "$repo" || echo "setup: $t reported a translation problem (the checks will report it)"; }
+done
+/venv/bin/python -c "import sys; sys.path.insert(0,'harness'); import framework; framework.ensure_makefile()" || exit 1
+# -k: a proof that depends on generated tables may legitimately fail when /repo is broken; everything else must still build
+timeout 10000 make -k -C coq -j16 > coq/setup_make.log 2>&1; rc=$?
+./build_models.sh || rc=1
+if [ $rc -ne 0 ]; then grep -E "^File|Error" coq/setup_make.log | head -20; echo "setup: finished WITH ERRORS"; exit 1; fi
 echo "setup ok"
